@@ -239,6 +239,30 @@ pub fn run_c12(ctx: &mut Ctx) {
             let eu = exact_upto(&src, h).min(h);
             ctx.call("derive", json!({"src": src, "how": how, "arg": arg, "H": h, "exact": exact, "exact_upto": eu, "tags": tags}), derive_call);
         }
+        // (b') coarse sources: an explicit ArrivalCurvePrefix without simultaneous arrivals whose later steps add up to
+        // three jobs at once (a legitimate, if not tight, source model; e.g. steps (1,1),(11,3),(21,4))
+        if i % 4 == 1 {
+            let ns = ctx.rng.gen_range(2..=4usize);
+            let mut steps: Vec<(u64, u64)> = vec![(1, 1)];
+            for _ in 1..ns {
+                let (d0, n0) = *steps.last().unwrap();
+                steps.push((d0 + ctx.rng.gen_range(1..=tm), n0 + ctx.rng.gen_range(1..=3)));
+            }
+            let hz = steps.last().unwrap().0 + ctx.rng.gen_range(0..=tm);
+            let acp = json!({"k": "acp", "h": hz, "steps": steps});
+            let hh = (3 * hz + 6).min(300);
+            let (how, arg) = match (i / 4) % 3 {
+                0 => ("into", 0),
+                1 => ("until", ctx.rng.gen_range(2..=hz)),
+                _ => ("njobs", ctx.rng.gen_range(3..=steps.last().unwrap().1 + 2)),
+            };
+            // the table of such a prefix is the tight curve of an event process only below its first multi-job step
+            // (from there on it is not sub-additive); domination beyond that point is the listed finding F11
+            let tight_upto = steps.windows(2).find(|w| w[1].1 >= w[0].1 + 2).map(|w| w[1].0 - 1).unwrap_or(hz);
+            ctx.call("derive", json!({"src": acp, "how": how, "arg": arg, "H": hh, "exact": false, "exact_upto": tight_upto.min(hh),
+                                      "tags": ["acp", "coarse_source", "loose_source"]}), derive_call);
+            ctx.call("dmin_iter", json!({"m": acp, "H": hh, "N": 40, "tags": ["acp", "coarse_source"]}), dmin_iter_call);
+        }
         // (c) delta_min_iter
         let m = gen::arrival(&mut ctx.rng, 1, &o);
         if !gen::is_empty_model(&m) {
